@@ -130,6 +130,20 @@ func (r *RIBModule) register(interest *spec.Interest, pitToken []byte, inFace ui
 		Flags:            flags,
 		ExpirationPeriod: expirationPeriod,
 	})
+
+	// The face can go down at any moment: between the check above and the insertion, or - for a
+	// route to the incoming face - while this command was still queued. Face removal deletes the
+	// face from the face table BEFORE it cleans the RIB, so: if the face is still there now, its
+	// removal has yet to clean the RIB and will take this route along; if it is gone, the clean-up
+	// may already be over, and the route just inserted has to be removed here.
+	if face.FaceTable.Get(faceID) == nil {
+		table.Rib.CleanUpFace(faceID)
+		core.LogWarn(r, "FaceID=", faceID, " went away while registering Prefix=", params.Name)
+		response = makeControlResponse(410, "Face does not exist", nil)
+		r.manager.sendResponse(response, interest, pitToken, inFace)
+		return
+	}
+
 	if expirationPeriod != nil {
 		core.LogInfo(r, "Created route for Prefix=", params.Name, ", FaceID=", faceID, ", Origin=", origin,
 			", Cost=", cost, ", Flags=0x", strconv.FormatUint(flags, 16), ", ExpirationPeriod=", expirationPeriod)
